@@ -77,10 +77,14 @@ def r1(ctx):
         ok = True
         try:
             for lazy in (True, False):
-                rs = [r for r in explore(init.body, mk_atoms({'uglyMode': False, 'vcffile is None': False}), env0={'lazyLoad': lazy}, max_paths=20000) if r['kind'] in ('fall', 'return')]
+                # the local whose final value is stored as self.lazyLoad (the parameter itself, or a local derived from it)
+                stored = {src(s_.value) for s_ in walk_no_nested(init) if isinstance(s_, ast.Assign) and src(s_.targets[0]) == 'self.lazyLoad' and isinstance(s_.value, ast.Name)}
+                lz = sorted(stored)[0] if len(stored) == 1 else 'lazyLoad'
+                rs = [r for r in explore(init.body, mk_atoms({'uglyMode': False, 'vcffile is None': False, 'use_cache': False}), env0={'lazyLoad': lazy, 'uglyMode': False, 'use_cache': False}, max_paths=20000)
+                      if r['kind'] in ('fall', 'return')]
                 ok = ok and bool(rs)
                 for r in rs:
-                    final = r['consts'].get('lazyLoad', UNK)
+                    final = r['consts'].get(lz, UNK)
                     called = any(c.startswith('self.fetchChromosome(') for c in r['calls'])
                     if final is UNK or called != (not final):
                         ok = False
@@ -442,9 +446,159 @@ def r4(ctx):
              key='cache-atomic-write', what='write_cache writes the final cache path directly (a partial file is trusted later)')
 
 
+def _site_oracle(rec, phased, select, ignore):
+    """what the property prescribes for one VCF record: None (not stored) or {base: samples}"""
+    ref, alts, samples = rec['ref'], rec['alts'], rec['samples']
+    if phased:
+        if not samples:
+            return {ref: {'r'}, alts[0]: {'a'}}
+        bases, mono, multi, assigned = {}, False, False, set()
+        for name, alleles in samples.items():
+            if select is not None and name not in select:
+                continue
+            for b in alleles:
+                if b is None:
+                    mono = True
+                elif len(b) == 1:
+                    bases.setdefault(b, set()).add(name)
+                    assigned.add(name)
+                else:
+                    multi = True
+        bad = multi or (select is not None and bool(bases) and len(assigned) != len(select))
+        if mono and bases:
+            bad = False
+        elif len(bases) < 2:
+            bad = True
+        used = bool(bases)
+    else:
+        alleles = (ref,) + tuple(alts)
+        if not all(len(a) == 1 for a in alleles):
+            return None
+        bases = {}
+        for label, b in zip('UVWXYZ', alleles):
+            bases.setdefault(b, set()).add(label)
+        bad, used = False, True
+    if not bad and ignore is not None:
+        bad = any((ref, b) in ignore for b in bases)
+    return bases if used and not bad else None
+
+
+MODEL_RECORDS = [
+    {'pos': 11, 'ref': 'A', 'alts': ('G',), 'samples': {'S1': ('A', 'A'), 'S2': ('G', 'G'), 'S3': ('A', 'G')}},
+    {'pos': 21, 'ref': 'C', 'alts': ('T',), 'samples': {'S1': ('C', 'C'), 'S2': ('T', 'T'), 'S3': ('C', 'T')}},                 # an ignored conversion
+    {'pos': 31, 'ref': 'C', 'alts': ('CGT',), 'samples': {'S1': ('C', 'C'), 'S2': ('CGT', 'CGT'), 'S3': ('C', 'CGT')}},         # indel whose allele is a piece of ACGT
+    {'pos': 41, 'ref': 'AT', 'alts': ('A',), 'samples': {'S1': ('AT', 'AT'), 'S2': ('A', 'A'), 'S3': ('AT', 'A')}},             # deletion
+    {'pos': 51, 'ref': 'G', 'alts': ('A',), 'samples': {'S1': ('G', 'G'), 'S2': (None, None), 'S3': ('G', 'G')}},               # missing call next to calls
+    {'pos': 61, 'ref': 'T', 'alts': ('C',), 'samples': {'S1': (None, None), 'S2': (None, None), 'S3': (None, None)}},           # nothing called
+    {'pos': 71, 'ref': 'T', 'alts': ('C',), 'samples': {'S1': ('T', 'T'), 'S2': ('T', 'T'), 'S3': ('C', 'C')}},                 # S1 and S2 agree
+    {'pos': 81, 'ref': 'G', 'alts': ('A', 'T'), 'samples': {'S1': ('G', 'A'), 'S2': ('T', 'T'), 'S3': ('G', 'G')}},             # three alleles, G>A ignored
+    {'pos': 91, 'ref': 'A', 'alts': ('C',), 'samples': {'S1': ('A', 'A'), 'S2': ('C', 'AC'), 'S3': ('A', 'C')}},                # one multi-base allele among bases
+    {'pos': 101, 'ref': 'T', 'alts': ('G',), 'samples': {'S1': ('T', 'G'), 'S2': (None, 'G'), 'S3': ('T', 'T')}},
+]
+
+
+def site_selection_model(ctx):
+    """AlleleResolver.fetchChromosome run by the abstract interpreter on ten model VCF records (SNVs, an ignored conversion, indels - one a piece of "ACGT" -, missing calls,
+    three alleles) for phased / unphased x no selection / two of three samples / one sample x with and without ignored conversions, and on a file without samples: the
+    table holds exactly the sites, bases and samples the property prescribes.  (ok, cases, witness) or None outside the interpreted subset.  Cached per run."""
+    if hasattr(ctx, '_site_model'):
+        return ctx._site_model
+    from ..consteval import module_scope, Evaluator, Instance, Unfoldable, Raised
+    ctx._site_model = None
+    n = 0
+    try:
+        env = module_scope(ctx.ix, ALLELES)
+        cls = env['AlleleResolver']
+        for with_samples in (True, False):
+            for phased, select, ignore in itertools.product((True, False), (None, {'S1', 'S2'}, {'S3'}), (None, {('C', 'T'), ('G', 'A')})):
+                if not with_samples and (select is not None):
+                    continue
+                n += 1
+                recs = []
+                for r in MODEL_RECORDS:
+                    samples = {k: Instance(attrs={'alleles': tuple(v)}) for k, v in r['samples'].items()} if with_samples else {}
+                    recs.append(Instance(attrs={'chrom': 'chr1', 'contig': 'chr1', 'pos': r['pos'], 'start': r['pos'] - 1, 'ref': r['ref'], 'alts': tuple(r['alts']), 'alleles': (r['ref'],) + tuple(r['alts']),
+                                                'samples': samples}))
+                vcf = Instance(attrs={'model': 'vcf'})
+
+                def hook(ev, call, env_, recs=recs, vcf=vcf):
+                    d = dotted(call.func) or ''
+                    if d.split('.')[-1] == 'VariantFile':
+                        return vcf
+                    if isinstance(call.func, ast.Attribute) and call.func.attr == 'fetch':
+                        return list(recs)
+                    if d in ('print',):
+                        return None
+                    return NotImplemented
+                e = dict(env)
+                table = Evaluator(e, budget=2000).ev(ast.parse('get_allele_dict()', mode='eval').body, e)
+                res = Instance(cls, attrs={'locationToAllele': table, 'phased': phased, 'select_samples': None if select is None else set(select), 'ignore_conversions': None if ignore is None else set(ignore),
+                                           'use_cache': False, 'verbose': False, 'region_start': None, 'region_end': None, 'vcffile': 'model.vcf.gz', 'lazyLoad': False})
+                e['res'] = res
+                Evaluator(e, budget=400000, call_hook=hook).ev(ast.parse("res.fetchChromosome('model.vcf.gz', 'chr1')", mode='eval').body, e)
+                got = {p_: {b: set(s_) for b, s_ in v_.items()} for p_, v_ in dict(res.attrs['locationToAllele']['chr1']).items() if p_ != -1}
+                want = {}
+                for r in MODEL_RECORDS:
+                    o = _site_oracle(dict(r, samples=r['samples'] if with_samples else {}), phased, select, ignore)
+                    if o is not None:
+                        want[r['pos'] - 1] = o
+                if got != want:
+                    p0 = sorted(set(got) ^ set(want) or [p_ for p_ in want if got.get(p_) != want[p_]])[0]
+                    rec0 = [r for r in MODEL_RECORDS if r['pos'] - 1 == p0][0]
+                    ctx._site_model = (False, n, {'phased': phased, 'selected samples': sorted(select) if select else None, 'ignored conversions': sorted(ignore) if ignore else None, 'file has samples': with_samples,
+                                                  'record': f'chr1:{rec0["pos"]} {rec0["ref"]}>{",".join(rec0["alts"])} ' + ' '.join(f'{k}={"|".join(str(x) for x in v)}' for k, v in rec0['samples'].items()),
+                                                  'stored': {b: sorted(s_) for b, s_ in got[p0].items()} if p0 in got else None,
+                                                  'prescribed': {b: sorted(s_) for b, s_ in want[p0].items()} if p0 in want else None})
+                    return ctx._site_model
+    except (Unfoldable, Raised, Exception) as e_:
+        ctx._site_model_error = f'{type(e_).__name__}: {str(e_)[:100]}'
+        return None
+    ctx._site_model = (True, n, None)
+    return ctx._site_model
+
+
+
 @rule('C18', 'C18-R5', 'per-record state: flags deciding whether a site is informative are re-initialised for every VCF record, the conversion '
                        'filter looks at the bases the selected samples carry, and a site is stored iff used and not bad')
 def r5(ctx):
+    # the structural reading decides; where it cannot follow a restructured record loop the interpreted model of fetchChromosome decides instead (every obligation of this
+    # rule is about what ends up in the table, which is what the model compares)
+    from ..core import Ctx, VIOLATED, UNDECIDED
+    sub = Ctx(ctx.ix, 'C18', ctx.tier)
+    err = None
+    try:
+        _r5_structural(sub)
+    except AnalysisError as e_:
+        err = e_
+    except Exception as e_:
+        err = AnalysisError(f'structural reading failed ({type(e_).__name__}: {e_})')
+    for k_, v_ in sub.counters.items():
+        ctx.counters[k_] = (ctx.counters.get(k_, set()) | v_) if isinstance(v_, set) else ctx.counters.get(k_, 0) + v_
+    for k_, v_ in getattr(sub, 'exhaustive', {}).items():
+        ctx.exhaustive[k_] = v_
+    open_ = [o for o in sub.obligations if o.status in (VIOLATED, UNDECIDED)]
+    if err is None and not open_:
+        ctx.obligations.extend(sub.obligations)
+        return
+    m = site_selection_model(ctx)
+    if m is None:
+        ctx.obligations.extend(sub.obligations)
+        if err is not None:
+            raise err
+        return
+    ok, n, wit = m
+    f = methods(ctx)['fetchChromosome']
+    ctx.counters['interpreted_cases'] = ctx.counters.get('interpreted_cases', 0) + n * len(MODEL_RECORDS)
+    if ok:
+        ctx.obligations.extend([o for o in sub.obligations if o not in open_])
+        ctx.emit('C18-R5', True, ALLELES, f, f'fetchChromosome interpreted on {len(MODEL_RECORDS)} model records x {n} configurations: the table holds exactly the prescribed sites, bases and samples (the structural '
+                 f'reading did not follow {len(open_) + (1 if err else 0)} construct(s) of the restructured record loop)', key='site-selection-model')
+    else:
+        ctx.obligations.extend(sub.obligations)
+        ctx.emit('C18-R5', False, ALLELES, f, f'fetchChromosome on model records: {wit}', key='site-selection-model', witness=wit, what='fetchChromosome stores a site / base / sample the property does not prescribe (or misses one)')
+
+
+def _r5_structural(ctx):
     ms = methods(ctx)
     f = ms['fetchChromosome']
     loops = [l for l in walk_no_nested(f) if isinstance(l, ast.For) and '.fetch(' in src(l.iter)]
@@ -734,6 +888,20 @@ def r7(ctx):
         ctx.emit('C18-R7', bad is None, ALLELES, adds[0], f'{len(singles)} bases are admitted, {len(multis)} multi-base alleles mark the site instead' if bad is None else
                  f'allele admission differs: {bad} - the lookup answers for a site that is not a single-nucleotide site', key=f'allele-is-a-base:{k}', witness=bad,
                  what='AlleleResolver.fetchChromosome stores a multi-base allele as a base')
+
+
+@rule('C18', 'C18-R8', 'site selection as a whole, run by the abstract interpreter: fetchChromosome on ten model VCF records (SNVs, ignored conversions, indels, missing calls, three alleles) x phased / unphased '
+                       'x sample selections x ignored conversions, and on a file without samples, leaves exactly the prescribed (position, base, samples) entries in the table')
+def r8(ctx):
+    m = site_selection_model(ctx)
+    f = methods(ctx)['fetchChromosome']
+    if m is None:
+        ctx.emit('C18-R8', False, ALLELES, f, f'fetchChromosome is outside the interpreted subset ({getattr(ctx, "_site_model_error", "")})', key='site-selection-model', undecided=True)
+        return
+    ok, n, wit = m
+    ctx.counters['interpreted_cases'] = ctx.counters.get('interpreted_cases', 0) + n * len(MODEL_RECORDS)
+    ctx.emit('C18-R8', ok, ALLELES, f, f'{len(MODEL_RECORDS)} model records x {n} configurations: the table holds exactly the prescribed sites' if ok else f'fetchChromosome on model records: {wit}',
+             key='site-selection-model', witness=wit, what='fetchChromosome stores a site / base / sample the property does not prescribe (or misses one)')
 
 
 META = {
